@@ -319,6 +319,24 @@ func oracleC02(e *Env, st *OracleState, i int, op *Op, res string) *Violation {
 	if hdrArch != want {
 		return &Violation{Prop: "C02", Key: key, What: fmt.Sprintf("header arch %q, primary partition arch %q", hdrArch, want), Op: i}
 	}
+	// an accepted set-metadata / set-digest does what it was asked: the requested modification time
+	// is recorded on the object and on the image, and raw metadata bytes are the object's metadata
+	// (also when the new value equals, or is a prefix of, what was stored before)
+	if (op.Kind == "setmeta" || op.Kind == "setoci") && strings.HasPrefix(res, "res ok") {
+		for _, o := range cur.Objs {
+			if o.ID != op.ID {
+				continue
+			}
+			if op.T.Kind == "at" && (o.MT != op.T.T || cur.MT != op.T.T) {
+				return &Violation{Prop: "C02", Key: "C02:set-not-applied", What: fmt.Sprintf("%s(%d) at time %d succeeded, object modified at %d, image modified at %d", op.Kind, op.ID, op.T.T, o.MT, cur.MT), Op: i}
+			}
+			if op.Kind == "setmeta" && op.MD.Kind == "raw" && len(op.MD.B) <= 384 {
+				if !bytes.Equal(bytes.TrimRight(o.Extra, "\x00"), bytes.TrimRight(op.MD.B, "\x00")) {
+					return &Violation{Prop: "C02", Key: "C02:set-not-applied", What: fmt.Sprintf("setmeta(%d) succeeded, the object's metadata is not the bytes given", op.ID), Op: i}
+				}
+			}
+		}
+	}
 	// a live object keeps its attributes and content until deleted / explicitly modified
 	if st.havePrev && isMutator(op.Kind) && strings.HasPrefix(res, "res ok") {
 		prevByID := map[uint32]objSnap{}
@@ -640,8 +658,14 @@ func oracleC13(e *Env, i int, op *Op, obs string) *Violation {
 			if d.DataType() != sif.DataPartition {
 				return false
 			}
-			_, pt, _, err := d.PartitionMetadata()
-			return err == nil && int64(pt) == s.N
+			// (the partition type as the descriptor's metadata bytes record it, whatever the
+			// architecture code next to it: a code this release has no name for is still a partition)
+			var rc rawCapture
+			if err := d.GetMetadata(&rc); err != nil {
+				return false
+			}
+			ex := append(append([]byte{}, rc.b...), make([]byte, 8)...)
+			return int64(le32(ex[4:])) == s.N
 		case "oci":
 			h, err := d.OCIBlobDigest()
 			return err == nil && h.String() == string(s.B)
